@@ -55,7 +55,7 @@ PROG_CONST = {
 # design universes (the program constants above are added)
 UNIVERSES = {
     'quick': [
-        dict(MaxS=2, PatSets='PatsB', NReals='{0, 2}', NGhosts='{0, 1}',
+        dict(MaxS=2, PatSets='PatsB', NReals='{0, 2}', NGhosts='{1}',
              StepSets='{2}', Periodics='{FALSE}'),
         dict(PatSets='PatsC', NReals='{2}', NGhosts='{1}',
              StepSets='{1, 2}', Periodics='{FALSE, TRUE}'),
@@ -197,7 +197,7 @@ def design(chk):
     nd = len(UNIVERSES[chk.tier])
     with ThreadPoolExecutor(max_workers=len(jobs)) as ex:
         # the first universe is by far the largest
-        tot = 10 if chk.tier == 'quick' else 14
+        tot = 9 if chk.tier == 'quick' else 14
         wk = lambda j: (max(2, tot - 2 * (nd - 1)) if j[1] == 0 else 2) \
             if j[0] == 'design' else 1                       # noqa: E731
         futs = [(j, ex.submit(run_tlc, j[3], wk(j))) for j in jobs]
